@@ -190,7 +190,7 @@ Inductive out :=
 | ONone.
 
 (* nextID(): nextId+1 — a Go int, which wraps to the negative range after MaxInt64 — then
-   at most 10^4 attempts: a non-positive candidate restarts at 1, a candidate still in the
+   len(refer)+1 attempts: a non-positive candidate restarts at 1, a candidate still in the
    refer map is skipped *)
 Definition wrap64 (z : Z) : Z := if 2 ^ 63 <=? z then z - 2 ^ 64 else z.
 
@@ -202,7 +202,7 @@ Fixpoint next_id_loop (fuel : nat) (newId : Z) (refer : list Z) : Z :=
       if mem newId refer then next_id_loop f (wrap64 (newId + 1)) refer else newId
   end.
 Definition alloc_id (next : Z) (refer : list Z) : Z :=
-  next_id_loop (Z.to_nat 10000) (wrap64 (next + 1)) refer.
+  next_id_loop (S (length refer)) (wrap64 (next + 1)) refer.
 Definition next_id (s : st) : Z := alloc_id (snext s) (srefer s).
 
 Definition tick_time (s : st) : Z :=
